@@ -77,6 +77,24 @@ class CSA:
         return out
 
     def _recursive_methods(self):
+        rec = self._recursive_methods0()
+        # a helper that is new with respect to the pinned tree is spliced in at its call sites (it has no summary contract);
+        # that is possible when every cycle through it also passes a pinned recursive method, which keeps its summary
+        from mirlib import load_pinned
+        pj = load_pinned()
+        if pj:
+            pinned = {p_.split('::')[-1] for p_ in pj.get('lib', {}) if p_.startswith('compiler::Compiler::')}
+            new = {m for m in rec if m not in pinned}
+            if new:
+                g = {m: {c for c in self._calls_of(m) if c in new} for m in new}
+                # the new helpers must be acyclic among themselves
+                def cyc(m, seen):
+                    return any(c in seen or cyc(c, seen | {c}) for c in g[m])
+                if not any(cyc(m, {m}) for m in new):
+                    rec = rec - new
+        return rec
+
+    def _recursive_methods0(self):
         g = {m: self._calls_of(m) for m in self.methods}
         rec = set()
         for m in g:
@@ -841,7 +859,10 @@ class CSA:
                 if meth in ('first', 'first_mut'):
                     s.viol('O6', 'stop/volgende bound to the OUTERMOST loop context (loop_contexts.%s())' % meth)
                     return [(s2, en, 'v', v) for s2, v in self.top_loop(s)]
-                if meth in ('len', 'is_empty', 'clear'):
+                if meth == 'is_empty':
+                    # agrees with what last()/last_mut() will find (same assumption about loops around this construct)
+                    return [(s2, en, 'v', ('bool', v[1] == 'none')) for s2, v in self.top_loop(s)]
+                if meth in ('len', 'clear'):
                     if meth == 'clear':
                         s.loops = []
                         s.outer_loops = 'empty'
@@ -1288,10 +1309,30 @@ class CSA:
                 out.append((r, e0, 'v', ('unit',)))
         return out
 
+    # hand-written iteration over a list: `while let Some(x) = it.next() { .. }` and
+    # `loop { match it.next() { Some(x) => .., None => break } }` are the `for x in it { .. }` they desugar from
+    @staticmethod
+    def _next_call(e):
+        return e.get('k') == 'mcall' and e['method'] == 'next' and not e['args']
+
     def ev_while(self, e, st, env):
+        c = e['cond']
+        if c.get('k') == 'let' and self._next_call(c['expr']) and c['pat'].get('k') == 'p_tuple_struct' and c['pat']['path'][-1] == 'Some':
+            loop = {'k': 'for', 'pat': c['pat']['elems'][0], 'iter': c['expr']['recv'], 'body': e['body'], 'line': e.get('line')}
+            return self.eval_for(loop, st, env)
         raise Undecided('CSA: `while` loop inside the compiler at line %s' % e.get('line'))
 
     def ev_loop(self, e, st, env):
+        stmts = e['body']['stmts']
+        if len(stmts) == 1 and stmts[0]['k'] == 's_expr' and stmts[0]['expr'].get('k') == 'match' and self._next_call(stmts[0]['expr']['expr']):
+            m = stmts[0]['expr']
+            some = [a for a in m['arms'] if a['pat'].get('k') == 'p_tuple_struct' and a['pat']['path'][-1] == 'Some' and a.get('guard') is None]
+            none = [a for a in m['arms'] if a['pat'].get('k') in ('p_path', 'p_ident', 'p_wild') and a is not (some[0] if some else None)]
+            if len(some) == 1 and len(none) == 1 and len(m['arms']) == 2 and none[0]['body'].get('k') == 'break' and none[0]['body'].get('expr') is None:
+                body = some[0]['body']
+                blk = body['block'] if body.get('k') == 'blockexpr' else {'stmts': [{'k': 's_expr', 'expr': body, 'semi': True}]}
+                loop = {'k': 'for', 'pat': some[0]['pat']['elems'][0], 'iter': m['expr']['recv'], 'body': blk, 'line': e.get('line')}
+                return self.eval_for(loop, st, env)
         raise Undecided('CSA: `loop` inside the compiler at line %s' % e.get('line'))
 
     # ---- driver -----------------------------------------------------------------------------
